@@ -426,7 +426,105 @@ def run_split(model: Model, modname, clsname, meth, rd: RefdomInfo, kwargs):
     return fn, cap
 
 
-def split_rules(model, rep, rule_geo, rule_blocks, rule_sub=None):
+def _face_diagonals(rd, cells_v):
+    """the diagonal each quadrilateral face of the 3-D reference cell is cut
+    along by the simplices: {face index: (i, j) local vertex indices}, or a
+    string describing what is wrong"""
+    idx = {tuple(p): k for k, p in enumerate(rd.p)}
+    edges = set()
+    for vs in cells_v:
+        loc = [idx.get(tuple(p)) for p in vs]
+        if None in loc:
+            return "a simplex vertex is not a vertex of the cell"
+        edges |= {frozenset((a, b)) for a in loc for b in loc if a != b}
+    out = {}
+    for fi, f in enumerate(rd.facets or []):
+        if len(set(f)) != 4:
+            continue
+        used = [d for d in ((f[0], f[2]), (f[1], f[3]))
+                if frozenset(d) in edges]
+        if len(used) != 1:
+            return (f"face {f} is cut along {len(used)} diagonals by the "
+                    f"simplices")
+        out[fi] = used[0]
+    return out
+
+
+def _conformity(rd, cells_v):
+    """necessary condition for the simplices of neighbouring cells to meet
+    in whole faces.  Box: cells of a tensor grid are translates of each
+    other, so the cut of a face must be the translate of the cut of the
+    opposite face.  Prism: an extruded mesh of sorted triangles numbers
+    the base of each prism in increasing global order, and a neighbour can
+    see the shared base edge as any of its local edges, so the diagonal must
+    be chosen by one rule of the local order on all three side faces.
+    Returns (ok, text)."""
+    dg = _face_diagonals(rd, cells_v)
+    if isinstance(dg, str):
+        return False, dg
+    P = rd.p
+
+    def sub(a, b):
+        return tuple(x - y for x, y in zip(a, b))
+    if rd.kind == "box":
+        seen = 0
+        for fa, da in dg.items():
+            A = rd.facets[fa]
+            for fb, db in dg.items():
+                if fb <= fa:
+                    continue
+                B = rd.facets[fb]
+                ds = {sub(P[b], P[a]) for a in A for b in B}
+                shift = [d for d in ds
+                         if {tuple(x + y for x, y in zip(P[a], d))
+                             for a in A} == {tuple(P[b]) for b in B}]
+                if not shift:
+                    continue
+                seen += 1
+                d = shift[0]
+                moved = {tuple(x + y for x, y in zip(P[a], d)) for a in da}
+                if moved != {tuple(P[b]) for b in db}:
+                    return False, (
+                        f"face {A} is cut along {da} but the opposite face "
+                        f"{B} along {db}, which is not its translate: the "
+                        f"neighbouring cells of a tensor grid cut their "
+                        f"common face along different diagonals")
+        if seen != 3:
+            return False, f"{seen} pairs of opposite faces recognised, not 3"
+        return True, "3 pairs of opposite faces are cut along translated " \
+                     "diagonals"
+    if rd.kind == "prism":
+        classes = {}
+        for fa, da in dg.items():
+            A = rd.facets[fa]
+            # pair the vertices of the face along the extrusion direction
+            lo = [a for a in A if any(
+                sub(P[b], P[a]) == (0,) * (rd.dim - 1) + (1,) for b in A)]
+            if len(lo) != 2:
+                return False, f"side face {A} not recognised as extruded"
+            bottom = [a for a in da if a in lo]
+            if len(bottom) != 1:
+                return False, f"face {A}: {da} is not a diagonal"
+            classes[tuple(A)] = ("lower" if bottom[0] == min(lo)
+                                 else "higher")
+        if len(classes) != 3:
+            return False, f"{len(classes)} side faces recognised, not 3"
+        if len(set(classes.values())) != 1:
+            return False, (
+                "the side faces are not cut by one rule: " + ", ".join(
+                    f"face {list(k)} from the {v}-numbered base vertex"
+                    for k, v in classes.items()) +
+                "; a neighbouring prism that sees the shared base edge as "
+                "another local edge cuts the common face along the other "
+                "diagonal")
+        return True, (f"all 3 side faces are cut from the "
+                      f"{next(iter(classes.values()))}-numbered vertex of "
+                      f"the base edge")
+    return True, "2-D split: cells meet in whole edges"
+
+
+def split_rules(model, rep, rule_geo, rule_blocks, rule_sub=None,
+                rule_conf=None):
     refdoms = load_refdoms(model)
     out = 0
     for modn, clsn, meth, rdn, variants in SPLITS:
@@ -497,6 +595,10 @@ def split_rules(model, rep, rule_geo, rule_blocks, rule_sub=None):
                        f"{len(cl.children)} non-degenerate simplices inside "
                        f"the cell, volumes sum to {ref_volume(rd)}",
                        sample=(clsn == "MeshHex1"))
+            if rule_conf and not bad and rd.dim == 3:
+                okc, txt = _conformity(rd, cells_v)
+                _v(rep, rule_conf, okc, f"{tag}:conforming", txt, fn.path,
+                   f"{clsn}.{meth}", txt, fn.lineno)
             if rule_sub and "replace" in cap:
                 sub = cap["replace"][-1][1].get("_subdomains")
                 nb = len(cl.children)
